@@ -140,6 +140,13 @@ def gen_case(rng, tier, idx):
         cfg["Index"]["markets"] = list(names)
         cfg["simulation"]["fundamentalCorrelations"] = {"pairwise": [[names[1], names[2], rng.choice([-0.5, 0.6, 0.9])]]}
         corr = True
+        if rng.random() < 0.35:
+            # exactly one market with a stochastic fundamental (the others flat or drifting deterministically)
+            k1 = rng.randrange(n_spot)
+            for i, nm in enumerate(names):
+                cfg[nm]["fundamentalVolatility"] = rng.choice([0.001, 0.003]) if i == k1 else 0.0
+            del cfg["simulation"]["fundamentalCorrelations"]
+            corr = False
         for k, v in cfg.items():
             if isinstance(v, dict) and isinstance(v.get("markets"), list) and k != "Index":
                 v["markets"] = [m for x in v["markets"] for m in (names if x == "Spot" else [x])]
